@@ -497,6 +497,27 @@ theorem specLines_onesub (k d k' d' : Str) :
     specLines ⟨k, d, [(k', d')]⟩ = blockLines k d ++ blockLines (' ' :: ' ' :: k') d' := by
   simp [specLines, subLines]
 
+theorem header_sym (k1 k2 k3 k4 k5 k6 d1 d2 d3 d4 d5 d6 R O : Str) (rs os : List BlockSpec)
+    (hR : R = unl (specsLines rs)) (hO : O = unl (specsLines os)) :
+    buildMetaString k1 d1 ++ buildMetaString k2 d2 ++ buildMetaString k3 d3 ++ buildMetaString k4 d4
+      ++ buildMetaString k5 d5 ++ buildMetaString (' ' :: ' ' :: k6) d6 ++ R ++ O
+    = unl (specsLines ([ (⟨k1, d1, []⟩ : BlockSpec), ⟨k2, d2, []⟩, ⟨k3, d3, []⟩, ⟨k4, d4, []⟩, ⟨k5, d5, [(k6, d6)]⟩ ]
+        ++ rs ++ os)) := by
+  rw [specsLines_append, specsLines_append, unl_append, unl_append, ← hR, ← hO]
+  rw [specsLines_cons, specsLines_cons, specsLines_cons, specsLines_cons, specsLines_cons, specsLines_nil,
+    specLines_nosub, specLines_nosub, specLines_nosub, specLines_nosub, specLines_onesub]
+  rw [buildMetaString_eq, buildMetaString_eq, buildMetaString_eq, buildMetaString_eq, buildMetaString_eq,
+    buildMetaString_eq]
+  generalize blockLines k1 d1 = a1
+  generalize blockLines k2 d2 = a2
+  generalize blockLines k3 d3 = a3
+  generalize blockLines k4 d4 = a4
+  generalize blockLines k5 d5 = a5
+  generalize blockLines (' ' :: ' ' :: k6) d6 = a6
+  simp only [unl_append, List.append_nil, List.append_assoc]
+
+theorem organism_key : "  ORGANISM".toList = ' ' :: ' ' :: "ORGANISM".toList := by decide
+
 /-- the header part of `build x` -/
 theorem buildHeader_eq (x : Sequence) (keys : List Str) :
     buildMetaString "DEFINITION".toList x.metadata.definition
@@ -508,20 +529,15 @@ theorem buildHeader_eq (x : Sequence) (keys : List Str) :
       ++ buildReferences 0 x.metadata.references
       ++ (keys.map fun otherKey => buildMetaString otherKey (lookupD x.metadata.other otherKey)).flatten
     = unl (specsLines (headerSpecs x keys)) := by
-  have e : "  ORGANISM".toList = ' ' :: ' ' :: "ORGANISM".toList := rfl
-  rw [headerSpecs, specsLines_append, specsLines_append, unl_append, unl_append, ← buildReferences_eq,
-    ← buildOther_eq, e]
-  rw [specsLines_cons, specsLines_cons, specsLines_cons, specsLines_cons, specsLines_cons, specsLines_nil,
-    specLines_nosub, specLines_nosub, specLines_nosub, specLines_nosub, specLines_onesub]
-  rw [buildMetaString_eq, buildMetaString_eq, buildMetaString_eq, buildMetaString_eq, buildMetaString_eq,
-    buildMetaString_eq]
-  simp only [unl_append, List.append_nil, List.append_assoc]
+  rw [organism_key]
+  exact header_sym _ _ _ _ _ _ _ _ _ _ _ _ _ _ _ _ (buildReferences_eq _ 0) (buildOther_eq _ keys)
 
 /-! #### what the reader makes of these blocks -/
 
 theorem mkBlock_other {k : Str} (hk : k ≠ "REFERENCE".toList) (text : Str) (subs : List (Str × Str)) :
     mkBlock k text subs = { key := k, text := text, subs := subs } := by
-  simp [mkBlock, hk]
+  unfold mkBlock
+  rw [if_neg hk]
 
 theorem map_optSub (k : String) {v : Str} (h : singleSpaced v = true) :
     (optSub k v).map (fun kd => (kd.1, readText kd.2)) = optSub k v := by
@@ -553,5 +569,389 @@ theorem specBlock_other (m : List (Str × Str)) : ∀ keys : List Str,
     rw [ih]
     obtain ⟨h1, h2⟩ := h k List.mem_cons_self
     simp [specBlock, mkBlock_other h1, readText_singleSpaced h2]
+
+theorem specBlock_plain {k d : Str} (hk : k ≠ "REFERENCE".toList) (hd : singleSpaced d = true) :
+    specBlock ⟨k, d, []⟩ = { key := k, text := d } := by
+  unfold specBlock
+  rw [mkBlock_other hk, readText_singleSpaced hd]
+  rfl
+
+theorem specBlock_source {d o : Str} (hd : singleSpaced d = true) (ho : singleSpaced o = true) :
+    specBlock ⟨"SOURCE".toList, d, [("ORGANISM".toList, o)]⟩
+      = { key := "SOURCE".toList, text := d, subs := [("ORGANISM".toList, o)] } := by
+  unfold specBlock
+  rw [mkBlock_other (k := "SOURCE".toList) (by decide), readText_singleSpaced hd]
+  simp only [List.map_cons, List.map_nil, readText_singleSpaced ho]
+
+theorem lookupD_singleSpaced {n : Nat} (m : List (Str × Str)) (h : m.all (wfOther n) = true) (k : Str) :
+    singleSpaced (lookupD m k) = true := by
+  induction m with
+  | nil => rfl
+  | cons kv m ih =>
+    simp only [List.all_cons, Bool.and_eq_true] at h
+    obtain ⟨a, b⟩ := kv
+    have ih' := ih h.2
+    unfold lookupD at ih' ⊢
+    by_cases hk : (k == a) = true
+    · simp only [List.lookup, hk]
+      have := h.1
+      simp only [wfOther, Bool.and_eq_true] at this
+      exact this.2
+    · have hk' : (k == a) = false := by simpa using hk
+      simp only [List.lookup, hk']
+      exact ih'
+
+theorem kDEF : KeyOK "DEFINITION".toList := keyOK_of_word (by decide) (by decide)
+theorem kACC : KeyOK "ACCESSION".toList := keyOK_of_word (by decide) (by decide)
+theorem kVER : KeyOK "VERSION".toList := keyOK_of_word (by decide) (by decide)
+theorem kKEY : KeyOK "KEYWORDS".toList := keyOK_of_word (by decide) (by decide)
+theorem kSRC : KeyOK "SOURCE".toList := keyOK_of_word (by decide) (by decide)
+theorem kREF : KeyOK "REFERENCE".toList := keyOK_of_word (by decide) (by decide)
+theorem kORG : SubKeyOK "ORGANISM".toList := subKeyOK_of_word (by decide) (by decide)
+theorem kAUT : SubKeyOK "AUTHORS".toList := subKeyOK_of_word (by decide) (by decide)
+theorem kTIT : SubKeyOK "TITLE".toList := subKeyOK_of_word (by decide) (by decide)
+theorem kJOU : SubKeyOK "JOURNAL".toList := subKeyOK_of_word (by decide) (by decide)
+theorem kPUB : SubKeyOK "PUBMED".toList := subKeyOK_of_word (by decide) (by decide)
+theorem kREM : SubKeyOK "REMARK".toList := subKeyOK_of_word (by decide) (by decide)
+
+theorem permute_nil_seed {α : Type} : ∀ l : List α, permute [] l = l
+  | [] => rfl
+  | a :: l => by simp [permute, permute_nil_seed l]
+
+theorem refs_OK : ∀ (refs : List Reference) (i : Nat), ∀ b ∈ refSpecs i refs, b.OK
+  | [], _, b, h => by simp [refSpecs] at h
+  | r :: rs, i, b, h => by
+    simp only [refSpecs, List.mem_cons] at h
+    rcases h with rfl | h
+    · refine ⟨kREF, ?_⟩
+      intro kd hkd
+      simp only [refSubs, optSub, List.mem_append] at hkd
+      have aux : ∀ (k : String) (v : Str), kd ∈ (if v ≠ [] then [(k.toList, v)] else []) → kd.1 = k.toList := by
+        intro k v hm
+        split at hm
+        · simp only [List.mem_singleton] at hm; rw [hm]
+        · simp at hm
+      rcases hkd with (((hkd | hkd) | hkd) | hkd) | hkd
+      · rw [aux _ _ hkd]; exact kAUT
+      · rw [aux _ _ hkd]; exact kTIT
+      · rw [aux _ _ hkd]; exact kJOU
+      · rw [aux _ _ hkd]; exact kPUB
+      · rw [aux _ _ hkd]; exact kREM
+    · exact refs_OK rs (i + 1) b h
+
+/-- the header of a record in the layout domain is read back as `(abs x).blocks` -/
+theorem header_read (x : Sequence) (h : wfLayout x = true) :
+    readHeader (specsLines (headerSpecs x (sortStrings (x.metadata.other.map Prod.fst)))) = some (abs x).blocks := by
+  simp only [wfLayout, Bool.and_eq_true] at h
+  obtain ⟨⟨⟨⟨⟨⟨⟨⟨⟨⟨⟨⟨⟨_, hd⟩, ha⟩, hv⟩, hk⟩, hs⟩, ho⟩, hrefs⟩, _⟩, hother⟩, _⟩, _⟩, _⟩, _⟩ := h
+  have hkeys : ∀ k ∈ sortStrings (x.metadata.other.map Prod.fst), ∃ kv ∈ x.metadata.other, kv.1 = k := by
+    intro k hk'
+    have := (sortStrings_perm _).subset hk'
+    simpa using this
+  have hkey_ok : ∀ k ∈ sortStrings (x.metadata.other.map Prod.fst), KeyOK k ∧ k ≠ "REFERENCE".toList := by
+    intro k hk'
+    obtain ⟨kv, hm, rfl⟩ := hkeys k hk'
+    have hw := List.all_eq_true.mp hother kv hm
+    simp only [wfOther, Bool.and_eq_true, Bool.not_eq_true', decide_eq_true_eq] at hw
+    refine ⟨keyOK_of_word hw.1.1.1.1 hw.1.1.2, ?_⟩
+    intro e
+    have hc := hw.1.2
+    rw [e] at hc
+    revert hc
+    decide
+  unfold specsLines
+  rw [readHeader_specs]
+  · congr 1
+    unfold headerSpecs abs
+    simp only [List.map_append, List.map_cons, List.map_nil]
+    rw [specBlock_plain (k := "DEFINITION".toList) (by decide) hd, specBlock_plain (k := "ACCESSION".toList) (by decide) ha,
+      specBlock_plain (k := "VERSION".toList) (by decide) hv,
+      specBlock_plain (k := "KEYWORDS".toList) (by decide) hk, specBlock_source hs ho, specBlock_refs _ 0 hrefs,
+      specBlock_other _ _ (fun k hk' => ⟨(hkey_ok k hk').2, lookupD_singleSpaced _ hother k⟩)]
+    simp only [sortedEntries, List.map_map, Function.comp_def]
+  · intro b hb
+    simp only [headerSpecs, List.mem_append, List.mem_cons, List.not_mem_nil, or_false] at hb
+    rcases hb with (hb | hb) | hb
+    · rcases hb with rfl | rfl | rfl | rfl | rfl
+      · exact ⟨kDEF, by intro kd hkd; cases hkd⟩
+      · exact ⟨kACC, by intro kd hkd; cases hkd⟩
+      · exact ⟨kVER, by intro kd hkd; cases hkd⟩
+      · exact ⟨kKEY, by intro kd hkd; cases hkd⟩
+      · refine ⟨kSRC, ?_⟩
+        intro kd hkd
+        have : kd = ("ORGANISM".toList, x.metadata.organism) := List.mem_singleton.mp hkd
+        rw [this]
+        exact kORG
+    · exact refs_OK _ 0 b hb
+    · simp only [otherSpecs, List.mem_map] at hb
+      obtain ⟨k, hk', rfl⟩ := hb
+      exact ⟨(hkey_ok k hk').1, by intro kd hkd; cases hkd⟩
+
+/-! ### the location text -/
+
+theorem noNl_of_digits {s : Str} (h : Location.Digits s) : NoNl s := by
+  intro c hc e
+  have := h c hc
+  subst e
+  revert this
+  decide
+
+theorem noNl_itoaInt (i : Int) : NoNl (Location.itoaInt i) := by
+  cases i with
+  | ofNat n => exact noNl_of_digits (Location.itoa_digits n)
+  | negSucc n =>
+    intro c hc
+    simp only [Location.itoaInt, List.mem_cons] at hc
+    rcases hc with rfl | hc
+    · decide
+    · exact noNl_of_digits (Location.itoa_digits _) c hc
+
+theorem noNl_trimComma {s : Str} (h : NoNl s) : NoNl (Location.trimComma s) := by
+  unfold Location.trimComma
+  split
+  · intro c hc
+    exact h c (List.dropLast_subset _ hc)
+  · exact h
+
+theorem noNl_cons {c : Char} {s : Str} (hc : c ≠ '\n') (h : NoNl s) : NoNl (c :: s) := by
+  intro d hd
+  rcases List.mem_cons.mp hd with rfl | hd
+  · exact hc
+  · exact h d hd
+
+theorem noNl_lit (s : Str) (h : s.all (· != '\n') = true) : NoNl s := by
+  intro c hc
+  have := List.all_eq_true.mp h c hc
+  simpa using this
+
+theorem noNl_wrap (c : Bool) {inner : Str} (h : NoNl inner) :
+    NoNl (if c = true then Location.complOpen ++ inner ++ [')'] else inner) := by
+  split
+  · exact ((noNl_lit Location.complOpen (by decide)).append h).append (noNl_lit [')'] (by decide))
+  · exact h
+
+theorem noNl_join {body : Str} (h : NoNl body) : NoNl (Location.trimComma (Location.joinOpen ++ body) ++ [')']) :=
+  (noNl_trimComma ((noNl_lit Location.joinOpen (by decide)).append h)).append (noNl_lit [')'] (by decide))
+
+theorem noNl_span (five three : Bool) (a b : Int) :
+    NoNl ((if five = true then ['<'] else []) ++ (Location.itoaInt a ++ ['.', '.'] ++ Location.itoaInt b)
+      ++ (if three = true then ['>'] else [])) := by
+  refine NoNl.append (NoNl.append ?_ (NoNl.append (NoNl.append (noNl_itoaInt _) (noNl_lit ['.', '.'] (by decide))) (noNl_itoaInt _))) ?_
+  · split
+    · exact noNl_lit ['<'] (by decide)
+    · exact noNl_lit [] (by decide)
+  · split
+    · exact noNl_lit ['>'] (by decide)
+    · exact noNl_lit [] (by decide)
+
+mutual
+theorem noNl_buildLoc : ∀ l : Location.PLoc, NoNl (Location.buildLoc l)
+  | ⟨start, stop, complement, join, five, three, []⟩ => by
+    rw [Location.buildLoc.eq_def]
+    apply noNl_wrap
+    split
+    · exact noNl_join (noNl_buildSubs [])
+    · exact noNl_span _ _ _ _
+  | ⟨start, stop, complement, join, five, three, [x]⟩ => by
+    rw [Location.buildLoc.eq_def]
+    apply noNl_wrap
+    split
+    · exact noNl_join (noNl_buildSubs [x])
+    · exact noNl_buildLoc x
+  | ⟨start, stop, complement, join, five, three, x :: y :: zs⟩ => by
+    rw [Location.buildLoc.eq_def]
+    apply noNl_wrap
+    split
+    · exact noNl_join (noNl_buildSubs (x :: y :: zs))
+    · exact noNl_join (noNl_buildSubs (x :: y :: zs))
+theorem noNl_buildSubs : ∀ ls : List Location.PLoc, NoNl (Location.buildSubs ls)
+  | [] => by intro c hc; simp [Location.buildSubs] at hc
+  | x :: xs => by
+    rw [Location.buildSubs]
+    exact (noNl_buildLoc x).append (noNl_cons (by decide) (noNl_buildSubs xs))
+end
+
+theorem ne_nil_wrap (c : Bool) {inner : Str} (h : inner ≠ []) :
+    (if c = true then Location.complOpen ++ inner ++ [')'] else inner) ≠ [] := by
+  split
+  · simp
+  · exact h
+
+theorem buildLoc_ne_nil : ∀ l : Location.PLoc, Location.buildLoc l ≠ []
+  | ⟨start, stop, complement, join, five, three, []⟩ => by
+    rw [Location.buildLoc.eq_def]
+    apply ne_nil_wrap
+    split
+    · simp
+    · intro h
+      simp only [List.append_eq_nil_iff] at h
+      have h1 := h.1.2.1.1
+      cases hs : start + 1 with
+      | ofNat n => rw [hs] at h1; exact Location.itoa_ne_nil n h1
+      | negSucc n => rw [hs] at h1; simp [Location.itoaInt] at h1
+  | ⟨start, stop, complement, join, five, three, [x]⟩ => by
+    rw [Location.buildLoc.eq_def]
+    apply ne_nil_wrap
+    split
+    · simp
+    · exact buildLoc_ne_nil x
+  | ⟨start, stop, complement, join, five, three, x :: y :: zs⟩ => by
+    rw [Location.buildLoc.eq_def]
+    apply ne_nil_wrap
+    split <;> simp
+
+/-! ### the feature table -/
+
+def locText (f : Feature) : Str :=
+  if f.gbkLocationString ≠ [] then f.gbkLocationString else Location.buildLoc f.sequenceLocation
+
+def qualLine (attrs : List (Str × Str)) (q : Str) : Str :=
+  spaces 21 ++ ['/'] ++ q ++ ['=', '"'] ++ lookupD attrs q ++ ['"']
+
+def featHead (f : Feature) : Str := spaces 5 ++ f.type ++ spaces (16 - f.type.length) ++ locText f
+
+def featLines (f : Feature) (keys : List Str) : List Str := featHead f :: keys.map (qualLine f.attributes)
+
+theorem buildFeatureString_eq (f : Feature) (o : List Nat) :
+    buildFeatureString f o = unl (featLines f (sortStrings (rangeKeys o f.attributes))) := by
+  have e1 : "=\"".toList = ['=', '"'] := by decide
+  have e2 : "\"\n".toList = ['"', '\n'] := by decide
+  unfold buildFeatureString featLines
+  simp only [e1, e2]
+  rw [unl_cons]
+  simp [featHead, locText, unl, qualLine, List.map_map, Function.comp_def]
+
+theorem readQual_line (attrs : List (Str × Str)) (q : Str) (hq : ∀ c ∈ q, c ≠ '=') :
+    readQual (qualLine attrs q) = some (q, lookupD attrs q) := by
+  have htake : (qualLine attrs q).take 21 = blanks 21 := by
+    unfold qualLine
+    simp only [List.append_assoc]
+    rw [List.take_append_of_le_length (by simp [spaces])]
+    simp [spaces, blanks]
+  have hdrop : (qualLine attrs q).drop 21 = '/' :: (q ++ '=' :: '"' :: (lookupD attrs q ++ ['"'])) := by
+    unfold qualLine
+    simp only [List.append_assoc]
+    rw [List.drop_append_of_le_length (by simp [spaces])]
+    simp [spaces]
+  have hsplit : ∀ (q r : Str), (∀ c ∈ q, c ≠ '=') →
+      (q ++ '=' :: r).takeWhile (· != '=') = q ∧ (q ++ '=' :: r).dropWhile (· != '=') = '=' :: r := by
+    intro q r hq
+    induction q with
+    | nil => simp
+    | cons c q ih =>
+      have hc : c ≠ '=' := hq c List.mem_cons_self
+      have := ih (fun d hd => hq d (List.mem_cons_of_mem _ hd))
+      simp [hc, this.1, this.2]
+  unfold readQual
+  rw [if_pos htake, hdrop]
+  simp only []
+  rw [(hsplit q _ hq).1, (hsplit q _ hq).2]
+  simp
+
+theorem spaces5 : spaces 5 = [' ', ' ', ' ', ' ', ' '] := rfl
+
+theorem readQual_head (f : Feature) (c : Char) (r : Str) (ht : f.type = c :: r) (hc : c ≠ ' ') :
+    readQual (featHead f) = none := by
+  unfold readQual featHead
+  rw [if_neg]
+  rw [ht, spaces5]
+  simp [blanks, List.replicate_succ, hc]
+
+/-- the feature key fits columns 6-20 -/
+structure TypeOK (t : Str) : Prop where
+  len : t.length ≤ 15
+  head : ∃ c r, t = c :: r ∧ c ≠ ' '
+  last : ∀ c, t.getLast? = some c → c ≠ ' '
+
+theorem readFeatLine_head (f : Feature) (ht : TypeOK f.type) (hl : locText f ≠ []) :
+    readFeatLine (featHead f) = some (f.type, locText f) := by
+  obtain ⟨c, r, e, hc⟩ := ht.head
+  have hlen := ht.len
+  have h5 : (featHead f).take 5 = blanks 5 := by
+    unfold featHead
+    simp only [List.append_assoc]
+    rw [List.take_append_of_le_length (by simp [spaces])]
+    simp [spaces, blanks]
+  have hd : (featHead f).drop 5 = f.type ++ spaces (16 - f.type.length) ++ locText f := by
+    unfold featHead
+    simp only [List.append_assoc]
+    rw [List.drop_append_of_le_length (by simp [spaces])]
+    simp [spaces]
+  have hpad : (f.type ++ spaces (16 - f.type.length)).length = 16 := by simp [spaces]; omega
+  have h16 : (f.type ++ spaces (16 - f.type.length) ++ locText f).drop 16 = locText f := by
+    rw [List.drop_append_of_le_length (by omega), List.drop_of_length_le (by omega)]
+    rfl
+  have h15 : ((f.type ++ spaces (16 - f.type.length) ++ locText f).drop 15).head? = some ' ' := by
+    have e16 : 16 - f.type.length = (15 - f.type.length) + 1 := by omega
+    rw [e16, spaces, List.replicate_succ', ← spaces]
+    simp only [List.append_assoc]
+    rw [← List.append_assoc, List.drop_append_of_le_length (by simp [spaces]; omega),
+      List.drop_of_length_le (by simp [spaces]; omega)]
+    rfl
+  have ht15 : (f.type ++ spaces (16 - f.type.length) ++ locText f).take 15 = f.type ++ spaces (15 - f.type.length) := by
+    have e16 : 16 - f.type.length = (15 - f.type.length) + 1 := by omega
+    rw [e16, spaces, List.replicate_succ', ← spaces]
+    simp only [List.append_assoc]
+    rw [← List.append_assoc, List.take_append_of_le_length (by simp [spaces]; omega),
+      List.take_of_length_le (by simp [spaces]; omega)]
+  unfold readFeatLine
+  rw [if_pos h5, hd]
+  have hform : f.type ++ spaces (16 - f.type.length) ++ locText f = c :: (r ++ spaces (16 - f.type.length) ++ locText f) := by
+    rw [e]; rfl
+  rw [hform] at h15 h16 ht15 ⊢
+  simp only []
+  rw [if_pos ⟨hc, h15, by rw [h16]; exact hl⟩, h16, ht15]
+  rw [show trimRight (f.type ++ spaces (15 - f.type.length)) = f.type from trimRight_append_blanks _ _ ht.last]
+
+theorem foldr_qualLines (attrs : List (Str × Str)) : ∀ (keys : List Str) (st : FState),
+    (∀ q ∈ keys, ∀ c ∈ q, c ≠ '=') →
+    (keys.map (qualLine attrs)).foldr featStep st =
+      { st with quals := (keys.map fun q => (q, lookupD attrs q)) ++ st.quals }
+  | [], st, _ => rfl
+  | q :: keys, st, h => by
+    simp only [List.map_cons, List.foldr_cons]
+    rw [foldr_qualLines attrs keys st (fun x hx => h x (List.mem_cons_of_mem _ hx))]
+    unfold featStep
+    rw [readQual_line attrs q (h q List.mem_cons_self)]
+    rfl
+
+def featRead (f : Feature) (keys : List Str) : SFeat :=
+  { key := f.type, loc := locText f, quals := keys.map fun q => (q, lookupD f.attributes q) }
+
+theorem foldr_featLines (f : Feature) (keys : List Str) (st : FState) (hq : st.quals = [])
+    (ht : TypeOK f.type) (hl : locText f ≠ []) (hk : ∀ q ∈ keys, ∀ c ∈ q, c ≠ '=') :
+    (featLines f keys).foldr featStep st =
+      { st with quals := [], feats := featRead f keys :: st.feats } := by
+  unfold featLines
+  rw [List.foldr_cons, foldr_qualLines _ keys st hk]
+  obtain ⟨c, r, e, hc⟩ := ht.head
+  unfold featStep
+  rw [readQual_head f c r e hc]
+  simp only []
+  rw [readFeatLine_head f ht hl]
+  simp [featRead, hq]
+
+/-- features with their sorted key lists -/
+def featsLines (fks : List (Feature × List Str)) : List Str := (fks.map fun fk => featLines fk.1 fk.2).flatten
+
+theorem foldr_featsLines : ∀ (fks : List (Feature × List Str)),
+    (∀ fk ∈ fks, TypeOK fk.1.type ∧ locText fk.1 ≠ [] ∧ ∀ q ∈ fk.2, ∀ c ∈ q, c ≠ '=') →
+    (featsLines fks).foldr featStep {} =
+      { quals := [], feats := fks.map fun fk => featRead fk.1 fk.2, ok := true }
+  | [], _ => rfl
+  | fk :: fks, h => by
+    simp only [featsLines, List.map_cons, List.flatten_cons, List.foldr_append]
+    have ih := foldr_featsLines fks (fun x hx => h x (List.mem_cons_of_mem _ hx))
+    simp only [featsLines] at ih
+    rw [ih]
+    obtain ⟨h1, h2, h3⟩ := h fk List.mem_cons_self
+    rw [foldr_featLines fk.1 fk.2 _ rfl h1 h2 h3]
+
+theorem readFeats_featsLines (fks : List (Feature × List Str))
+    (h : ∀ fk ∈ fks, TypeOK fk.1.type ∧ locText fk.1 ≠ [] ∧ ∀ q ∈ fk.2, ∀ c ∈ q, c ≠ '=') :
+    readFeats (featsLines fks) = some (fks.map fun fk => featRead fk.1 fk.2) := by
+  unfold readFeats
+  rw [foldr_featsLines fks h]
+  simp
 
 end PolyVerif.Lemmas.GbLayout
